@@ -183,6 +183,24 @@ fn edits_of(record: &str, f: &mut dyn FnMut(String, Option<usize>, Option<FenFau
             f(build(&v), fld, None);
         }
     }
+    // every '/' of the placement moved to every other position of the placement (two compensating
+    // structural errors: one rank too long, another too short)
+    let placement_len = chars.iter().position(|&c| c == ' ').unwrap_or(chars.len());
+    for p in 0..placement_len {
+        if chars[p] != '/' {
+            continue;
+        }
+        let mut without = chars.clone();
+        without.remove(p);
+        for q in 0..placement_len {
+            if q == p {
+                continue;
+            }
+            let mut v = without.clone();
+            v.insert(q, '/');
+            f(build(&v), None, None);
+        }
+    }
     // field-level edits
     let fields: Vec<&str> = record.split(' ').collect();
     for i in 0..fields.len() {
